@@ -7,7 +7,7 @@ import itertools
 import numpy as np
 import z3
 
-from symx.core import SBool, SInt, cur, fresh_bool, fresh_int, is_sym, zb, zi
+from symx.core import Inconclusive, SBool, SInt, cur, fresh_bool, fresh_int, is_sym, zb, zi
 from symx.harness import SNP, stubs_description
 from symx.snp import SArr
 
@@ -132,6 +132,8 @@ def _run_eq(job):
         try:
             eq = m1 == m2
             ne = m1 != m2
+        except Inconclusive:
+            raise
         except Exception as e:
             return [(f"== / != never raise (got {type(e).__name__})", z3.BoolVal(False))]
         obs.append(("== returns a bool", z3.BoolVal(isinstance(eq, (bool, np.bool_)) or type(eq) is SBool)))
@@ -141,6 +143,8 @@ def _run_eq(job):
             obs.append(("identical object equals itself", z3.BoolVal(bool(m1 == m1) and not bool(m1 != m1))))
             obs.append(("comparison with non-maze objects is False, not an error",
                         z3.BoolVal((m1 == 3) is False and (m1 == None) is False and (m1 != "x") is True)))  # noqa: E711
+        except Inconclusive:
+            raise
         except Exception as e:
             obs.append((f"== with itself / other types never raises (got {type(e).__name__})", z3.BoolVal(False)))
         return obs
@@ -185,6 +189,8 @@ def _replay_eq(job, inputs, notes):
     tag = f"{job['k1']}{tuple(job['shape1'])} vs {job['k2']}{tuple(job['shape2'])}"
     try:
         eq, ne = m1 == m2, m1 != m2
+    except Inconclusive:
+        raise
     except Exception as e:
         return f"eq-raises:{job['k1']}=={job['k2']} | {tag}: comparison raised {type(e).__name__}: {str(e)[:120]}"
     exp = _same_value(m1, m2)
@@ -194,6 +200,8 @@ def _replay_eq(job, inputs, notes):
     try:
         if not (m1 == m1) or (m1 != m1) or (m1 == 3) is not False or (m1 == None) is not False:  # noqa: E711
             return f"eq-self-or-foreign | {tag}"
+    except Inconclusive:
+        raise
     except Exception as e:
         return f"eq-raises-foreign:{job['k1']} | {tag}: {type(e).__name__}"
     return None
@@ -209,6 +217,8 @@ def _run_hash(job):
         m1, t1 = _sym_maze(kind, r, c, "a", L, invariant=True)
         try:
             h1 = hash(m1)
+        except Inconclusive:
+            raise
         except Exception as e:
             return [(f"every maze kind is hashable (got {type(e).__name__})", z3.BoolVal(False))]
         # all fields are concrete on this path now; rebuild an equal maze through other representations
@@ -221,6 +231,8 @@ def _run_hash(job):
             try:
                 same = bool(m1 == m2)
                 h2 = hash(m2)
+            except Inconclusive:
+                raise
             except Exception as e:
                 obs.append((f"hash/eq of an equal copy never raises (got {type(e).__name__})", z3.BoolVal(False)))
                 continue
@@ -237,6 +249,8 @@ def _replay_hash(job, inputs, notes):
     ms = [_concrete_maze(kind, r, c, "a", L, inputs, sol_dtype=dt) for dt in (np.int64, np.int8, np.int64)]
     try:
         hs = [hash(m) for m in ms]
+    except Inconclusive:
+        raise
     except Exception as e:
         return f"hash-raises:{kind} | hash({kind}) raised {type(e).__name__}: {str(e)[:100]}"
     if not (ms[0] == ms[1]) or len(set(hs)) != 1 or len(set(ms)) != 1:
@@ -265,6 +279,8 @@ def _run_dataset_eq(job):
         d1, d2 = MazeDataset(c1, mz1), MazeDataset(c2, mz2[: job["len2"]])
         try:
             eq = d1 == d2
+        except Inconclusive:
+            raise
         except Exception as e:
             return [(f"dataset == never raises (got {type(e).__name__})", z3.BoolVal(False))]
         exp = z3.And(ctx.inputs["grid_n2"] == 2, z3.BoolVal(job["len2"] == 2), z3.Not(ctx.inputs["flip"]))
@@ -288,6 +304,8 @@ def _replay_dataset_eq(job, inputs, notes):
     d2 = MazeDataset(MazeDatasetConfig(name="d", grid_n=inputs.get("grid_n2", 2), n_mazes=job["n_mazes2"]), mz2[: job["len2"]])
     try:
         eq = d1 == d2
+    except Inconclusive:
+        raise
     except Exception as e:
         return f"dataset-eq-raises | {type(e).__name__}: {str(e)[:100]}"
     exp = inputs.get("grid_n2", 2) == 2 and job["len2"] == 2 and not inputs.get("flip", False)
